@@ -20,5 +20,5 @@ L2 == <<"b", "a", "c">>
 T1 == [cols |-> L1, rows |-> <<Row(L1, <<"1", "1", "x", "x">>), Row(L1, <<"2", "n/a", "x", "x">>), Row(L1, <<"4", "2", "y", "n/a">>)>>]
 T2 == [cols |-> L2, rows |-> <<Row(L2, <<"x", "x", "1">>), Row(L2, <<"n/a", "y", "x">>)>>]
 T3 == [cols |-> <<"a">>, rows |-> <<>>]
-SmallTuples == {<<T1, T2>>, <<T2, T3, T1>>}
+SmallTuples == {<<T2, T3, T1>>}
 ====
